@@ -507,6 +507,8 @@ def model_job(led, model):
     led.solver_time('z3-feasibility', ctx.it.solver_time)
     if hasattr(led, 'calls'):
         attach_replays(led, model)
+    if getattr(led, 'tier', 'quick') == 'thorough':
+        numeric_crosscheck(led, model)
 
 
 REPLAY_BASE = dict(m1=2, m2=2, n2=2, r2=250., H=500., laminaprop=[123.55e3, 8.708e3, 0.319, 5.695e3, 5.695e3, 5.695e3],
@@ -565,6 +567,47 @@ def attach_replays(led, model):
             kw['replay'] = get(kind)
         except Exception as e:
             kw['replay'] = {'reproduced': False, 'replay_error': repr(e)}
+
+
+def numeric_crosscheck(led, model):
+    """thorough tier: the installed binary against the same clauses, numerically (bounded: one geometry, one laminate, orders 2,2,2).
+    Only for models whose .pyx sources are those the binary was built from.  A disagreement between a discharged proof and the
+    binary is reported as a checker error (the engine or the specification would be wrong), not as a violation."""
+    from .. import pyreplay, shell_oracle as O
+    db = model_db()
+    sub = 'fsdt' if 'fsdt' in model else 'clpt'
+    files = ['compmech/conecyl/%s/%s.pyx' % (sub, db[model][k]) for k in ('linear', 'commons')]
+    if not pyreplay.binary_matches_source(files):
+        led.bounded_item('%s: numeric cross-check skipped, the installed extension was not built from the current .pyx text' % model)
+        return
+    failed_clauses = set()
+    for name, a, kw in getattr(led, 'calls', []):
+        if name == 'fail':
+            failed_clauses.add(a[0])
+    pay = dict(REPLAY_BASE, model=model)
+    if model.startswith('iso_'):
+        pay['iso'] = [71e3, 0.33, 2.]
+    lab = 'compmech/conecyl (installed binary):%s' % model
+    runs = [('cylinder-equals-cone-at-0/k0', O.CYLCONE, dict(pay, alphadeg=0., which='k0'), 'n_different', 'equals-fk0-at-alpha-0'),
+            ('cylinder-equals-cone-at-0/kG0', O.CYLCONE, dict(pay, alphadeg=0., which='kG0', loads=[1000., 0.1, 500.]), 'n_different', 'equals-fkG0-at-alpha-0'),
+            ('k0-positive-semi-definite', O.PSD, dict(pay, alphadeg=25.), 'n_negative', 'gram-representation-psd')]
+    if 'clpt' in model and not model.startswith('iso_') and 'bcn' not in model:
+        runs.append(('k0-is-energy-hessian', O.HESSIAN_ALL, dict(pay, alphadeg=25., s=400), 'n_mismatch', 'energy-hessian'))
+    led.bounded_item('numeric cross-check of the installed binary (thorough tier): r2=250, H=500, [30,-30,45], orders (2,2,2), alpha in {0, 25 deg}')
+    for tag, script, p_, key, clause in runs:
+        r = pyreplay.run_real(script, p_, timeout=1500)
+        name = '%s/numeric-cross-check/%s' % (lab, tag)
+        if r.get('raised') or r.get('replay_error'):
+            led.error('numeric cross-check %s could not run: %s' % (name, r.get('raised') or r.get('replay_error')))
+            continue
+        bad = bool(r.get(key))
+        proof_failed = any(clause in c for c in failed_clauses)
+        if not bad:
+            led.ok(name, lab, backend='numeric(bounded)')
+        elif proof_failed:
+            led.ok(name + '/agrees-with-the-refuted-proof-obligation', lab, backend='numeric(bounded)')
+        else:
+            led.error('%s: the binary violates the clause numerically (%s) although every proof obligation of it was discharged' % (name, str(r)[:300]))
 
 
 class Silent(object):
